@@ -147,6 +147,89 @@ pub fn delta(fields: &[&str]) -> String
 	}
 	format!("ok {}", out)
 }
+
+/// variant names of the elements of the `nodes: [...]` list in a ParseTree Debug dump
+fn node_tags(debug: &str) -> Vec<String>
+{
+	let start = match debug.find("nodes: [")
+	{
+		Some(i) => i + "nodes: [".len(),
+		None => return vec![],
+	};
+	let mut depth = 0i32;
+	let mut tags = Vec::new();
+	let mut cur = String::new();
+	let mut at_start = true;
+	for ch in debug[start..].chars()
+	{
+		match ch
+		{
+			'(' | '[' | '{' => depth += 1,
+			')' | ']' | '}' =>
+			{
+				if depth == 0
+				{
+					break;
+				}
+				depth -= 1;
+			}
+			_ => (),
+		}
+		if depth == 0 && ch == ','
+		{
+			if !cur.is_empty()
+			{
+				tags.push(std::mem::take(&mut cur));
+			}
+			at_start = true;
+			continue;
+		}
+		if at_start
+		{
+			if ch.is_ascii_alphanumeric()
+			{
+				cur.push(ch);
+			}
+			else if !cur.is_empty()
+			{
+				at_start = false;
+			}
+		}
+	}
+	if !cur.is_empty()
+	{
+		tags.push(cur);
+	}
+	tags
+}
+
+/// dparse <bytes>: token kinds, node variant sequence (also after parse errors), declaration count and codes
+pub fn dparse(fields: &[&str]) -> String
+{
+	let src = unescape(fields.get(0).copied().unwrap_or(""));
+	let tokens = lexer::lex(&src, "f.pn");
+	let kinds: Vec<String> = tokens.base_tokens().iter().map(|b| format!("{:?}", b)).collect();
+	if let Some(errors) = tokens.errors()
+	{
+		return format!("lexerr tokens={} codes={}", kinds.len(), crate::codes_str(&errors.codes()));
+	}
+	let tree = penne::delta::parser::parse(&tokens);
+	let codes = match tree.errors(&tokens)
+	{
+		Some(e) => crate::codes_str(&e.codes()),
+		None => String::new(),
+	};
+	let tags = node_tags(&format!("{:?}", tree));
+	format!(
+		"ok tokens={} nodes={} decls={} codes={} kinds={} tags={}",
+		kinds.len(),
+		tree.num_parse_nodes(),
+		tree.num_declarations(),
+		codes,
+		kinds.join(","),
+		tags.join(",")
+	)
+}
 /// fuzz <kb>: exactly what `penne fuzz tokens --kb <kb>` does (src/main.rs: do_fuzzing), then both real lexers
 pub fn fuzz(fields: &[&str]) -> String
 {
